@@ -650,3 +650,72 @@ Proof.
   pose proof (tp_nonneg 1 ps). pose proof (fp_nonneg 1 ps). pose proof (fn_nonneg 1 ps).
   rewrite f1c_z by lia. unfold f1_c. f_equal. lia.
 Qed.
+
+(* ------------------------------------------------------------------------------------------ *)
+(* Multiclass accuracy (k = 1: argmax; k > 1: fewer than k scores strictly above the target's) *)
+(* ------------------------------------------------------------------------------------------ *)
+Lemma acc_mask_eq c b : acc_mask c b = map (fun s => (b2z (fst s), snd s)) (acc_samples c b).
+Proof.
+  unfold acc_mask, acc_samples. rewrite pairs_eq. destruct (Nat.eqb (acc_k c) 1).
+  - rewrite map_map. reflexivity.
+  - destruct (fst b) as [l|rows]; [reflexivity|]. rewrite map_map. apply map_ext. intros [row y]. cbn [fst snd].
+    unfold correct_topk. rewrite sumZ_b2z. reflexivity.
+Qed.
+Lemma sum_where_samples c (cs : list (bool * Z)) :
+  sum_where c (combine (map snd (map (fun s => (b2z (fst s), snd s)) cs)) (map fst (map (fun s => (b2z (fst s), snd s)) cs)))
+  = cnt (fun s => fst s && (snd s =? c)) cs.
+Proof.
+  induction cs as [|[m y] cs IH]; [reflexivity|]. cbn [map combine fst snd]. rewrite sum_where_cons, cnt_cons, IH. cbn [fst snd].
+  destruct m, (y =? c); reflexivity.
+Qed.
+Lemma cnt_and_le {X} (P Q : X -> bool) l : cnt (fun x => P x && Q x) l <= cnt Q l.
+Proof. induction l as [|x l IH]; [cbn; lia|]. rewrite !cnt_cons. cbn beta. destruct (P x), (Q x); cbn [andb b2z]; lia. Qed.
+Lemma acc_pt cs c : qdivx (z2q (cnt (fun s : bool * Z => fst s && (snd s =? c)) cs)) (z2q (cnt (fun s : bool * Z => snd s =? c) cs)) = acc_c cs c.
+Proof.
+  unfold acc_c. apply qdivx_z. intros H0. pose proof (cnt_and_le (fun s : bool * Z => fst s) (fun s => snd s =? c) cs).
+  pose proof (cnt_nonneg (fun s : bool * Z => fst s && (snd s =? c)) cs). cbn beta in *. lia.
+Qed.
+
+(* [Htg] follows from acc_valid (equal lengths; k > 1 needs score rows) *)
+Theorem mcacc_algo_eq_spec c b :
+  map snd (acc_samples c b) = snd b ->
+  fn_of mcacc_spec c b = mcacc_textbook c b.
+Proof.
+  intros Htg. unfold fn_of, mcacc_textbook. cbn [agamma abeta mcacc_spec]. unfold acc_beta. rewrite acc_mask_eq.
+  set (cs := acc_samples c b) in *. rewrite <- Htg.
+  destruct (acc_avg c); cbn [is_micro acc_gamma_avg].
+  - cbn [fsc nget narr nth nsc zsc]. f_equal. rewrite !map_map. cbn [fst]. rewrite sumZ_b2z, lenZ_map. apply qdivx_z.
+    intros H0. pose proof (cnt_le_len (@fst bool Z) cs). pose proof (cnt_nonneg (@fst bool Z) cs). pose proof (cnt_le_len (fun s : bool * Z => fst s) cs). pose proof (cnt_nonneg (fun s : bool * Z => fst s) cs). lia.
+  - rewrite scatter_add_spec, scatter_ones_spec.
+    rewrite (map_ext _ (fun c0 => cnt (fun s : bool * Z => fst s && (snd s =? c0)) cs)) by (intros c0; apply sum_where_samples).
+    rewrite (map_ext (fun c0 => cnt (fun i => i =? c0) (map snd cs)) (fun c0 => cnt (fun s : bool * Z => snd s =? c0) cs)) by (intros c0; apply cnt_map).
+    destruct (fld_zvec2 (map (fun c0 => cnt (fun s : bool * Z => fst s && (snd s =? c0)) cs) (classes (ncls (acc_nc c))))
+                        (map (fun c0 => cnt (fun s : bool * Z => snd s =? c0) cs) (classes (ncls (acc_nc c))))) as [E0 E1].
+    rewrite E0, E1, rows2, filter_map, map_map. cbn [fst snd]. f_equal. f_equal.
+    rewrite (filter_ext _ (fun c0 => negb (cnt (fun s : bool * Z => snd s =? c0) cs =? 0))) by (intros c0; apply nz_z2q).
+    apply map_ext. intros c0. apply acc_pt.
+  - rewrite scatter_add_spec, scatter_ones_spec.
+    rewrite (map_ext _ (fun c0 => cnt (fun s : bool * Z => fst s && (snd s =? c0)) cs)) by (intros c0; apply sum_where_samples).
+    rewrite (map_ext (fun c0 => cnt (fun i => i =? c0) (map snd cs)) (fun c0 => cnt (fun s : bool * Z => snd s =? c0) cs)) by (intros c0; apply cnt_map).
+    destruct (fld_zvec2 (map (fun c0 => cnt (fun s : bool * Z => fst s && (snd s =? c0)) cs) (classes (ncls (acc_nc c))))
+                        (map (fun c0 => cnt (fun s : bool * Z => snd s =? c0) cs) (classes (ncls (acc_nc c))))) as [E0 E1].
+    rewrite E0, E1, rows2, map_map. cbn [fst snd]. f_equal. apply map_ext. intros c0. apply acc_pt.
+  - rewrite scatter_add_spec, scatter_ones_spec.
+    rewrite (map_ext _ (fun c0 => cnt (fun s : bool * Z => fst s && (snd s =? c0)) cs)) by (intros c0; apply sum_where_samples).
+    rewrite (map_ext (fun c0 => cnt (fun i => i =? c0) (map snd cs)) (fun c0 => cnt (fun s : bool * Z => snd s =? c0) cs)) by (intros c0; apply cnt_map).
+    destruct (fld_zvec2 (map (fun c0 => cnt (fun s : bool * Z => fst s && (snd s =? c0)) cs) (classes (ncls (acc_nc c))))
+                        (map (fun c0 => cnt (fun s : bool * Z => snd s =? c0) cs) (classes (ncls (acc_nc c))))) as [E0 E1].
+    rewrite E0, E1, rows2, map_map. cbn [fst snd]. f_equal. apply map_ext. intros c0. apply acc_pt.
+Qed.
+(* the hypothesis holds on valid batches *)
+Lemma map_snd_combine {X Y} (a : list X) (b : list Y) : List.length a = List.length b -> map snd (combine a b) = b.
+Proof. revert b. induction a as [|x a IH]; intros [|y b] H; cbn in *; try discriminate; [reflexivity|]. f_equal. apply IH. lia. Qed.
+Lemma acc_valid_targets c b : acc_valid c b = true -> map snd (acc_samples c b) = snd b.
+Proof.
+  unfold acc_valid, acc_samples. intros H. apply andb_prop in H as [H _]. apply andb_prop in H as [Hs Hk].
+  pose proof (shape_aligned _ _ Hs) as Hal. unfold aligned in Hal. unfold pairs_spec. rewrite <- preds_eq.
+  destruct (Nat.eqb (acc_k c) 1).
+  - rewrite map_map. cbn [snd]. apply map_snd_combine. exact Hal.
+  - destruct (fst b) as [l|rows]; [discriminate|]. rewrite map_map. cbn [snd]. apply map_snd_combine.
+    cbn [preds] in Hal. rewrite map_length in Hal. exact Hal.
+Qed.
